@@ -755,7 +755,7 @@ class iindex(dict):
                 coords = (coords,)
 
             new_coord = mapping.get(coords[0])
-            if new_coord == new_common:
+            if (coords[0] if new_coord is None else new_coord) == new_common:
                 # More than one coord maps to the new common coord.
                 # Skip, but flag so that common is shifted below.
                 merged = True
